@@ -53,6 +53,7 @@ impl Prop for C11 {
             "alloc_counted_on_failing_message",
             "alloc_counted_on_corrupted_message",
             "alloc_counted_on_typed_conversion",
+            "response_buffer_reused",
         ];
         v.into_iter().map(String::from).collect()
     }
@@ -69,7 +70,13 @@ impl Prop for C11 {
             tree,
             plain488: false,
         };
-        let mut t = base_trace("C11", seed, run, "sweep", cfg.clone());
+        // one run in five hands in a response buffer that still holds an earlier response
+        let mode = if rng.chance(1, 5) {
+            *rng.pick(&["sweep_prefill=17\n", "sweep_prefill=OLD,1\n", "sweep_prefill=x", "sweep_prefill=4242;4242\n"])
+        } else {
+            "sweep"
+        };
+        let mut t = base_trace("C11", seed, run, mode, cfg.clone());
         let tc = TreeCtx::new(&cfg.tree);
         let root = tc.root.clone();
         let mut shadow = fresh_shadow(&cfg);
@@ -244,6 +251,15 @@ impl Prop for C11 {
         let snapshot = world.dev.clone_state();
         let before = world.adopt();
         let pred = predict(&world.root, &before, s, Reading::Condition);
+        let prefill: Vec<u8> = trace
+            .mode
+            .strip_prefix("sweep_prefill=")
+            .map(|p| p.as_bytes().to_vec())
+            .unwrap_or_default();
+        if !prefill.is_empty() {
+            stats.probe("response_buffer_reused");
+        }
+        world.prefill = prefill.clone();
         let reference = world.exec_send(s);
         log_obs(stats, &reference);
         if !universal(&reference, i, &mut out) {
@@ -273,8 +289,16 @@ impl Prop for C11 {
                 }
             }
         }
-        let msgd = describe_msg(s);
-        for cap in 0..=r.len() + 1 {
+        if !prefill.is_empty() {
+            // unit boundaries were computed for an empty buffer
+            bounds.clear();
+        }
+        let msgd = if prefill.is_empty() {
+            describe_msg(s)
+        } else {
+            format!("{} into a buffer already holding {:?}", describe_msg(s), B(prefill.clone()))
+        };
+        for cap in prefill.len()..=r.len() + 1 {
             if !crate::exec::array_cap_supported(cap) {
                 continue;
             }
@@ -282,6 +306,7 @@ impl Prop for C11 {
             stats.fault("F5_capacity");
             world.dev = snapshot.clone_state();
             world.exec_read(0);
+            world.prefill = prefill.clone();
             let mut sc = s.clone();
             sc.fmt = FmtCfg::Array { cap };
             let o = world.exec_send(&sc);
